@@ -305,7 +305,7 @@ Section act_nest_ind.
   Hypothesis HO : forall a, (forall t body, a <> ACleanup t body) -> P a.
   Fixpoint act_nest_ind (a : act) : P a.
   Proof.
-    destruct a as [n loc | loc v | mm | mm | t body | x v | fx | h | | c o | r p | e];
+    destruct a as [n loc | loc v | mm | mm | t body | x v | fx | h | | c o | r p | pk | e];
       try (apply HO; intros; discriminate).
     apply HC. induction body as [|x r IH]; constructor; [apply act_nest_ind | exact IH].
   Defined.
